@@ -306,6 +306,14 @@ def main(ck):
       return
     is_ccd = pair not in NON_CCD
     tdist = tprim + ((K_CCD * tol_ccd + K_CCDREL * sc) if is_ccd else 0.0)
+    # plane-cylinder with the disc parallel to the plane up to rounding (0 < sin < 1e-12): the collider derives the rim
+    # direction from a cancellation that is pure noise there, so the reported rim point can be off by up to one radius
+    # (the distance is unaffected and every point of the disc is equally close): positions get a slack of one radius
+    disc_slack = 0.0
+    if pair == ('plane', 'cylinder'):
+      sn = float(np.linalg.norm(np.cross(S[0].mat[:, 2], S[1].mat[:, 2])))
+      if 0 < sn < 1e-12:
+        disc_slack = float(S[1].size[0] if S[1].typ == 'cylinder' else S[0].size[0])
     smin = min(S[0].minsize(), S[1].minsize())
     desc = lambda: ' | case: %s' % {k: (v.tolist() if isinstance(v, np.ndarray) else v) for k, v in info.items() if k != 'xml'}
 
@@ -370,6 +378,8 @@ def main(ck):
     labels = ['pair:%s-%s/%s' % (t1, t2, 'contact' if ncon else 'none'), 'delta:' + info['dclass'],
               'orient:' + info['okind'], 'dir:' + info['dkind']]
     labels += labels_pre
+    if disc_slack:
+      labels.append('plane-cylinder-disc-parallel-up-to-rounding(position slack r)')
     if deep:
       labels.append('deep(invariants only)')
 
@@ -522,7 +532,7 @@ def main(ck):
           # penetration: 5 % face preference; separated band: edge-edge witnesses are clamped segment points and the
           # distance is measured along the axis, so pos-+n*dist/2 only approximates them
           tolk += (0.06 if sat <= 0 else 0.5) * abs(dk)
-        if max(e1, e2) > tolk:
+        if max(e1, e2) > tolk + disc_slack:
           (softfail if is_ccd else hard)('contact %d/%d: witness points pos-+n*dist/2 are outside the geoms by %.3g / %.3g (tol %.3g)' % (
               k, ncon, e1, e2, tolk), 'between:%s-%s' % pair)
 
@@ -588,7 +598,7 @@ def main(ck):
         e1, e2 = gr.sdf(sa_, ft[:3]), gr.sdf(sb_, ft[3:])
         if not gd_ccd:
           e1, e2 = abs(e1), abs(e2)
-        if max(e1, e2) > tgd * 4 + (1e-4 * sc if gd_ccd else 0.0):   # GJK witnesses: barycentric combinations in world
+        if max(e1, e2) > tgd * 4 + (1e-4 * sc if gd_ccd else 0.0) + disc_slack:   # GJK witnesses: barycentric combinations in world
           # coordinates of a possibly unconverged simplex, worst observed 4e-5*sc (see C15 K_MEMBER)
           gd_fail('mj_geomDistance fromto points outside the geoms by %.3g/%.3g' % (e1, e2), 'gd-fromto')
         if dd > 1e-3 * smin:
@@ -598,7 +608,7 @@ def main(ck):
           if dd > lb + tgd * 2:
             gd_fail('mj_geomDistance %.17g exceeds what its own witness direction certifies (%.17g)' % (dd, lb),
                     'gd-certificate')
-    if dtrue is not None and dtrue < distmax and not (deep_gd and pair in (('capsule', 'capsule'), ('capsule', 'box'))):
+    if dtrue is not None and dtrue < distmax and not (deep_gd and (gd_ccd or pair in (('capsule', 'capsule'), ('capsule', 'box')))):
       if abs(d12 - dtrue) > tgd:
         gd_fail('mj_geomDistance %.17g, true signed distance %.17g' % (d12, dtrue), 'gd-true')
     if ncon and not deep and not deep_gd:
